@@ -33,7 +33,7 @@ ASSUMPTIONS = [
 CASE_TIMEOUT_S = 200
 BUDGET = {
     "quick": {"examples": 150, "wall_s": 100, "shards": 4},
-    "thorough": {"examples": 1500, "wall_s": 1200, "shards": 16},
+    "thorough": {"examples": 6000, "wall_s": 1500, "shards": 16},
 }
 
 F = "file"  # the file-based decision
